@@ -1074,6 +1074,8 @@ func (e *Engine) effectObligations(sp *ssa.Package, fc *FuncContract, fn *ssa.Fu
 						}
 						if v, ok := curEv.St.cells[c]; ok && v != nil {
 							withLocals[name] = v
+						} else {
+							withLocals[name] = e.zero(curEv.St, c.Typ) // not yet declared at the time of the event
 						}
 					}
 					return evalWhereIn(withLocals, curEv.St)
@@ -1113,6 +1115,8 @@ func (e *Engine) effectObligations(sp *ssa.Package, fc *FuncContract, fn *ssa.Fu
 							if v, ok := ev.St.cells[c]; ok && v != nil {
 								return v, true
 							}
+							// declared later than the event: the variable does not exist yet; its zero value stands in
+							return e.zero(ev.St, c.Typ), true
 						}
 					}
 					return nil, false
